@@ -204,6 +204,9 @@ func printStats(st *RunStats) {
 	for _, e := range st.Errors {
 		fmt.Println("ERROR:", e)
 	}
+	for _, m := range st.InfeasibleMsgs {
+		fmt.Println("INFEASIBLE:", m)
+	}
 	for _, k := range sortedKeys(st.VioCounts) {
 		fmt.Printf("VIOCOUNT %s = %d\n", k, st.VioCounts[k])
 	}
